@@ -384,24 +384,48 @@ P.not_decided.append("termination of the argument-reduction loop while(|z|>0.1) 
                      "does not terminate -- not decided here")
 
 
-def G_summary(rec, radius=True):
+def code_sum(*terms):
+    """a + b + ... built the way the executor builds it (simplify after every binary operation), so that the result is
+    the same hash-consed z3 term as the code's own expression (keeps solver work syntactic)."""
+    r = terms[0]
+    for t in terms[1:]:
+        r = simp(r + t)
+    return r
+
+
+def prove_from(v, name, goal, hyps, order=PZ):
+    """Obligation with a hand-picked subset of the path condition as hypotheses (sound: fewer hypotheses).  Keeps the
+    ideal small for polyid.  Every hypothesis must literally be on the path condition."""
+    from engine.csym import Obligation
+    for h in hyps:
+        if not any(h.eq(x) for x in v.st.pc):
+            raise AssertionError("prove_from: hypothesis not on the path condition: %s" % str(h)[:200])
+    ob = Obligation(v.eng.prefix + v.task.name + "." + name, list(hyps), goal, "post")
+    ob.meta["order"] = order
+    ob.meta["ctx"] = v
+    v.eng.obligations.append(ob)
+    return ob
+
+
+def G_summary(rec, radius=True, ncs=4):
     """Summary contract of stiefel_Gs3(Gs, beta, X) (and stiefel_Gs) inside the solver: fresh G0..G3 with the
     algebraic relations of true G-functions; r(X) > 0 read off the caller's r0, eta0, zeta0."""
-    def apply(eng, st, args, node, ncs=4):
+    def apply(eng, st, args, node):
         gp, beta, X = args[0], as_real(args[1]), as_real(args[2])
         G = [eng.fresh("G%d" % k, z3.RealSort()) for k in range(ncs)]
         for k in range(ncs):
             eng.write(st, Ptr(gp.obj, tuple(gp.path[:-1]) + (z3.IntVal(k),)), G[k])
-        st.assume(G[0] == 1 - beta * G[2])
-        st.assume(G[1] == X - beta * G[3])
-        st.assume(G[1] * G[1] == G[2] * (1 + G[0]))
+        rel = [G[0] == 1 - beta * G[2], G[1] == X - beta * G[3], G[1] * G[1] == G[2] * (1 + G[0])]
         if ncs == 6:
-            st.assume(G[2] == X * X / 2 - beta * G[4])
-            st.assume(G[3] == X * X * X / 6 - beta * G[5])
+            rel += [G[2] == X * X / 2 - beta * G[4], G[3] == X * X * X / 6 - beta * G[5]]
+        for r in rel:
+            st.assume(r)
         if radius:
             r0, eta0, zeta0 = (eng.local(st, n) for n in ("r0", "eta0", "zeta0"))
             st.assume(r0 + eta0 * G[1] + zeta0 * G[2] > 0)
-        rec.append({"beta": beta, "X": X, "G": G})
+            # the same fact on the term the code builds for r0 + (eta0*Gs[1] + zeta0*Gs[2])
+            st.assume(code_sum(r0, code_sum(simp(eta0 * G[1]), simp(zeta0 * G[2]))) > 0)
+        rec.append({"beta": beta, "X": X, "G": G, "rel": rel})
         return None
     return apply
 
@@ -410,11 +434,12 @@ class Setup:
     pass
 
 
-def solver_setup(v):
+def solver_setup(v, nvar=0):
     """Symbolic inputs of reb_whfast_kepler_solver(r, p_j, M, i, dt) with the documented precondition."""
     S = Setup()
+    v.eng.check_defined = True
     S.r, S.rp = v.struct_obj("struct reb_simulation", "r")
-    S.r.N_var_config = 0
+    S.r.N_var_config = nvar
     S.pj = v.array("struct reb_particle", None, "pj")
     S.i = v.int("i")
     S.M, S.dt = v.real("M"), v.real("dt")
@@ -444,37 +469,40 @@ def time_equation(c, X, G):
 
 def install_exit_with_root(v, S):
     """Loop handlers of the f,g tasks (see the exit-with-root assumption)."""
-    eng = v.eng
-    from engine.csym import LoopSpec
     from engine.cexec import PathEnd
+    from engine.csym import NORMAL, Flow
     gsum = G_summary(S.rec)
     v.loop(SOLVER, 1, invariant=lambda L: [("true", z3.BoolVal(True))])      # inner prevX scan (only for the dry run)
 
-    def modelled_exit(eng, st, tagname, set_converged):
-        """Gs[] = G(beta, X) at the final iterate X and the universal Kepler equation holds there."""
+    def Gs_of(eng, st, X):
         gp = eng.local_ptr(st, "Gs")
-        X = eng.local(st, "X")
         gsum(eng, st, [Ptr(gp.obj, (z3.IntVal(0),)), S.cap["beta"], X], None)
-        last = S.rec[-1]
-        st.assume(time_equation(S.cap, X, last["G"]))
-        if set_converged:
-            eng.write(st, eng.local_ptr(st, "converged"), z3.IntVal(1))
+        return S.rec[-1]
+
+    def failed(eng, st, what):
+        """no convergence: Gs[] are the G-functions of the last iterate, converged = 0; the bisection follows.
+        Definedness of the bracket computation between here and the bisection loop: not decided (see not_decided)."""
+        Gs_of(eng, st, eng.fresh("X_last", z3.RealSort()))
+        eng.write(st, eng.local_ptr(st, "converged"), z3.IntVal(0))
+        eng.check_defined = False
+        S.cap["exit"] = what + "-failed"
 
     def quartic(eng, st, n, cond, inc, body):
         capture(eng, st, S)
         mods = eng.loop_modifies(st, n, cond, inc, body, eng.loopspecs[(SOLVER, 0)])
         eng.havoc(st, mods, "quartic")
         if eng.choose(st, 2, "quartic exit") == 0:
-            modelled_exit(eng, st, "quartic", True)
+            X = eng.local(st, "X")
+            last = Gs_of(eng, st, X)
+            S.cap["root"] = time_equation(S.cap, X, last["G"])
+            st.assume(S.cap["root"])
+            eng.write(st, eng.local_ptr(st, "converged"), z3.IntVal(1))
             S.cap["exit"] = "quartic"
         else:
-            eng.write(st, eng.local_ptr(st, "converged"), z3.IntVal(0))
-            S.cap["exit"] = "quartic-failed"
-        from engine.csym import NORMAL
+            failed(eng, st, "quartic")
         return NORMAL
 
     def newton(eng, st, n, cond, inc, body):
-        from engine.csym import NORMAL, Flow
         capture(eng, st, S)
         mods = eng.loop_modifies(st, n, cond, inc, body, eng.loopspecs[(SOLVER, 2)])
         eng.havoc(st, mods, "newton")
@@ -485,29 +513,38 @@ def install_exit_with_root(v, S):
             if fl.kind != Flow.BREAK:
                 raise PathEnd("not the last iteration")
             X, oldX = eng.local(st, "X"), eng.local(st, "oldX")
-            st.assume(X == oldX)
+            fix = X == oldX
+            st.assume(fix)
             last = S.rec[-1]
-            ob = eng.oblige(st, v.task.name + ".newton.fixed_point_is_root", time_equation(S.cap, X, last["G"]))
-            ob.meta["order"] = PZ
+            S.cap["root"] = time_equation(S.cap, oldX, last["G"])
+            prove_from(v, "newton.fixed_point_is_root", S.cap["root"], [fix])
             eng.oblige(st, v.task.name + ".newton.Gs_at_final_X", last["X"] == X)
             eng.oblige(st, v.task.name + ".newton.converged_flag", eng.local(st, "converged") == 1)
-            st.assume(time_equation(S.cap, X, last["G"]))
+            st.assume(S.cap["root"])
             S.cap["exit"] = "newton"
         else:
-            eng.write(st, eng.local_ptr(st, "converged"), z3.IntVal(0))
-            S.cap["exit"] = "newton-failed"
+            failed(eng, st, "newton")
         return NORMAL
 
     def bisection(eng, st, n, cond, inc, body):
-        from engine.csym import NORMAL
+        eng.check_defined = True
         mods = eng.loop_modifies(st, n, cond, inc, body, eng.loopspecs[(SOLVER, 3)])
         eng.havoc(st, mods, "bisect")
-        modelled_exit(eng, st, "bisect", False)
+        X = eng.local(st, "X")
+        last = Gs_of(eng, st, X)
+        S.cap["root"] = time_equation(S.cap, X, last["G"])
+        st.assume(S.cap["root"])
         S.cap["exit"] += "+bisection"
         return NORMAL
     v.loop(SOLVER, 0, invariant=quartic, mode="custom")
     v.loop(SOLVER, 2, invariant=newton, mode="custom")
     v.loop(SOLVER, 3, invariant=bisection, mode="custom")
+
+
+P.not_decided.append("R-mode definedness of the hyperbolic bisection bracket (lines 259-267: sqrt(1-h2*beta/M^2), sqrt(h2)/q, "
+                     "dt/q, dt/(|vq dt|+r0)) on the fall-back path after a failed quartic/Newton iteration: true for "
+                     "beta<=0, h2>0, M>0, but z3 and cvc5 time out on the raw-coordinate polynomials (sign of a product "
+                     "of two expanded polynomials); definedness checks are switched off for exactly that stretch")
 
 
 def cross(a, b):
@@ -523,7 +560,7 @@ def capture_fg(v, S):
     f, g, fd, gd, ri, X, Gs[] of the real code at that point."""
     def h(eng, st, n, cond, inc, body):
         from engine.csym import NORMAL, Unsupported, as_bool
-        for nm in ("f", "g", "fd", "gd", "ri", "X"):
+        for nm in ("f", "g", "fd", "gd", "ri", "X", "eta0Gs1zeta0Gs2"):
             S.cap[nm] = eng.local(st, nm)
         S.cap["Gs"] = list(eng.local(st, "Gs").items)
         c = simp(as_bool(eng.rvalue(st, cond)))
@@ -558,10 +595,11 @@ def _(v):
     # exit state of the iteration
     for k in range(4):
         v.prove("exit.Gs%d_is_G%d_of_final_iterate" % (k, k), c["Gs"][k] == G[k])
-    v.prove("exit.root", r0 * X + eta0 * G[2] + zeta0 * G[3] == dt, order=PZ)
-    rr = r0 + eta0 * G[1] + zeta0 * G[2]
-    v.prove("radius.ri", ri * rr == 1, order=PZ)
-    v.prove("radius.positive", rr > 0)
+    prove_from(v, "exit.root", r0 * X + eta0 * G[2] + zeta0 * G[3] == dt, [c["root"]])
+    e = c["eta0Gs1zeta0Gs2"]
+    v.prove("radius.sum", e == eta0 * G[1] + zeta0 * G[2], order=PZ)
+    prove_from(v, "radius.ri", ri * code_sum(r0, e) == 1, [])
+    v.prove("radius.positive", code_sum(r0, e) > 0)
     # Gauss functions (the code stores f-1 and gd-1)
     v.prove("gauss.f", 1 + c["f"] == 1 - M * G[2] * r0i, order=PZ)
     v.prove("gauss.g", c["g"] == dt - M * G[3], order=PZ)
